@@ -1,4 +1,5 @@
 import Sif.Spec.C12
+set_option linter.unusedSimpArgs false
 /-
   Helper lemmas for C12 (registry permissions).
 -/
